@@ -235,6 +235,13 @@ func Verif_C09_client_config() {
 	roots := new(x509.CertPool)
 	verifapi.Assert("profile-stored", s.SetClientTLSConfig("prof", &tls.Config{RootCAs: roots, InsecureSkipVerify: insecure}, pins) == nil)
 	mode := []ExpectedHostnameType{ExpectedHostnameTypeDNS, ExpectedHostnameTypeReceptor}[verifapi.Choose(2)]
+	// the profile may have been looked up before (another peer, either mode): each lookup stands alone
+	if verifapi.Bool() {
+		earlier := []ExpectedHostnameType{ExpectedHostnameTypeDNS, ExpectedHostnameTypeReceptor}[verifapi.Choose(2)]
+		_, eerr := s.GetClientTLSConfig("prof", "testhost", earlier)
+		verifapi.Assert("earlier-lookup-ok", eerr == nil)
+		verifapi.Cover("profile-looked-up-before")
+	}
 	cfg, err := s.GetClientTLSConfig("prof", "ex", mode)
 	verifapi.Assert("profile-found", err == nil && cfg != nil)
 	_, err2 := s.GetClientTLSConfig("nosuch", "ex", mode)
